@@ -29,6 +29,7 @@
 (*                     internal q_matrix when it changed (integers, unit 1/SC)           *)
 (*              end    end_of_episode                                                    *)
 (*              final  the returned q_values and the support of the returned policy      *)
+(*              cut    the run did not return (only the steps before are judged)         *)
 (*            The trace actions replay the bookkeeping of (R) from the logged arguments, *)
 (*            judge every clause of the property in integer arithmetic and accumulate    *)
 (*            total verdicts (fail = property clauses, drift = implementation shaped);   *)
@@ -245,7 +246,14 @@ TrFinal ==
   /\ obs' = Ev.q /\ pc' = "done" /\ l' = l + 1
   /\ UNCHANGED <<iid, cur, cnt, tcnt, rsum, Q>>
 
-Next == StartEpisode \/ Step \/ TrStep \/ TrEnd \/ TrFinal
+\* the run was interrupted by the harness (it did not return): only the experienced steps are judged
+TrCut ==
+  /\ pc = "trace" /\ l <= Len(M.ev) /\ Ev.k = "cut"
+  /\ drift' = drift \cup {<<"final", "run-did-not-return", l>>}
+  /\ pc' = "done" /\ l' = l + 1
+  /\ UNCHANGED <<iid, cur, cnt, tcnt, rsum, Q, obs, fail>>
+
+Next == StartEpisode \/ Step \/ TrStep \/ TrEnd \/ TrFinal \/ TrCut
 Spec == Init /\ [][Next]_vars
 
 \* ------------------------------------------------------------------ emission (trace mode)
